@@ -37,6 +37,8 @@ type c12Case struct {
 	/* QuietMs: how long the attached shell is left alone between the two
 	round trips made after the listener has closed; 0 means 2500. */
 	QuietMs int `json:"quiet_ms,omitempty"`
+	/* Brief: the shell ends as soon as it has become ready. */
+	Brief bool `json:"ends_at_once,omitempty"`
 }
 
 func chunk(s string) string { return fmt.Sprintf("%x\r\n%s\r\n", len(s), s) }
@@ -224,67 +226,69 @@ func c12Run(c c12Case, base string) (string, string) {
 	if !waitNotice(`Shell is ready`) {
 		return fail("no-shell", "the shell never became ready")
 	}
-	/* New TCP connections are refused shortly afterwards. */
-	refused := false
-	for deadline := time.Now().Add(20 * time.Second); time.Now().Before(deadline); time.Sleep(50 * time.Millisecond) {
-		if !canConnect() {
-			refused = true
-			break
+	if !c.Brief {
+		/* New TCP connections are refused shortly afterwards. */
+		refused := false
+		for deadline := time.Now().Add(20 * time.Second); time.Now().Before(deadline); time.Sleep(50 * time.Millisecond) {
+			if !canConnect() {
+				refused = true
+				break
+			}
 		}
-	}
-	if !refused {
-		return fail("listener-still-open", "20 s after the ready notice the listen address still accepts connections")
-	}
-	/* The attached shell keeps working, both ways. */
-	p.Send("marker-line-after-close\r")
-	/* (/i sends its response header together with the first line.) */
-	if _, err := ci.ReadHeader("GET"); nil != err {
-		return fail("shell-disturbed", "operator input no longer reaches the shell after the listener closed: reading the input stream's response header: "+err.Error())
-	}
-	got := ""
-	buf := make([]byte, 4096)
-	ci.C.SetReadDeadline(time.Now().Add(c12Wait))
-	for !strings.Contains(got, "marker-line-after-close") {
-		n, err := ci.R.Read(buf)
-		got += string(buf[:n])
-		if nil != err {
-			return fail("shell-disturbed", fmt.Sprintf("operator input no longer reaches the shell after the listener closed (read %q, %v)", got, err))
+		if !refused {
+			return fail("listener-still-open", "20 s after the ready notice the listen address still accepts connections")
 		}
-	}
-	if c.Traffic && !strings.Contains(got, "early-line-2") {
-		return fail("traffic-lost", fmt.Sprintf("lines in flight when the listener closed did not arrive (got %q)", got))
-	}
-	if err := co.Send(chunk("OUT-MARKER-AFTER-CLOSE\n")); nil != err {
-		return fail("shell-disturbed", "sending output after the listener closed: "+err.Error())
-	}
-	if !waitNotice(`OUT-MARKER-AFTER-CLOSE`) {
-		return fail("shell-disturbed", "shell output no longer reaches the operator after the listener closed")
-	}
-	if c.Traffic && !strings.Contains(p.Output(), "EARLY-OUT-2") {
-		return fail("traffic-lost", "output in flight when the listener closed was not shown")
-	}
-	/* ... and goes on working: a second round trip a few seconds later
-	(anything that gives up on lingering connections would have by now). */
-	quiet := 2500 * time.Millisecond
-	if 0 != c.QuietMs {
-		quiet = time.Duration(c.QuietMs) * time.Millisecond
-	}
-	time.Sleep(quiet)
-	p.Send("second-marker-line\r")
-	ci.C.SetReadDeadline(time.Now().Add(c12Wait))
-	for got = ""; !strings.Contains(got, "second-marker-line"); {
-		n, err := ci.R.Read(buf)
-		got += string(buf[:n])
-		if nil != err {
-			return fail("shell-disturbed", fmt.Sprintf("a few seconds after the listener closed operator input no longer reaches the shell (read %q, %v)", got, err))
+		/* The attached shell keeps working, both ways. */
+		p.Send("marker-line-after-close\r")
+		/* (/i sends its response header together with the first line.) */
+		if _, err := ci.ReadHeader("GET"); nil != err {
+			return fail("shell-disturbed", "operator input no longer reaches the shell after the listener closed: reading the input stream's response header: "+err.Error())
 		}
-	}
-	if err := co.Send(chunk("SECOND-OUT-MARKER\n")); nil != err {
-		return fail("shell-disturbed", "sending output a few seconds after the listener closed: "+err.Error())
-	}
-	if !waitNotice(`SECOND-OUT-MARKER`) {
-		return fail("shell-disturbed", "a few seconds after the listener closed shell output no longer reaches the operator")
-	}
+		got := ""
+		buf := make([]byte, 4096)
+		ci.C.SetReadDeadline(time.Now().Add(c12Wait))
+		for !strings.Contains(got, "marker-line-after-close") {
+			n, err := ci.R.Read(buf)
+			got += string(buf[:n])
+			if nil != err {
+				return fail("shell-disturbed", fmt.Sprintf("operator input no longer reaches the shell after the listener closed (read %q, %v)", got, err))
+			}
+		}
+		if c.Traffic && !strings.Contains(got, "early-line-2") {
+			return fail("traffic-lost", fmt.Sprintf("lines in flight when the listener closed did not arrive (got %q)", got))
+		}
+		if err := co.Send(chunk("OUT-MARKER-AFTER-CLOSE\n")); nil != err {
+			return fail("shell-disturbed", "sending output after the listener closed: "+err.Error())
+		}
+		if !waitNotice(`OUT-MARKER-AFTER-CLOSE`) {
+			return fail("shell-disturbed", "shell output no longer reaches the operator after the listener closed")
+		}
+		if c.Traffic && !strings.Contains(p.Output(), "EARLY-OUT-2") {
+			return fail("traffic-lost", "output in flight when the listener closed was not shown")
+		}
+		/* ... and goes on working: a second round trip a few seconds later
+		(anything that gives up on lingering connections would have by now). */
+		quiet := 2500 * time.Millisecond
+		if 0 != c.QuietMs {
+			quiet = time.Duration(c.QuietMs) * time.Millisecond
+		}
+		time.Sleep(quiet)
+		p.Send("second-marker-line\r")
+		ci.C.SetReadDeadline(time.Now().Add(c12Wait))
+		for got = ""; !strings.Contains(got, "second-marker-line"); {
+			n, err := ci.R.Read(buf)
+			got += string(buf[:n])
+			if nil != err {
+				return fail("shell-disturbed", fmt.Sprintf("a few seconds after the listener closed operator input no longer reaches the shell (read %q, %v)", got, err))
+			}
+		}
+		if err := co.Send(chunk("SECOND-OUT-MARKER\n")); nil != err {
+			return fail("shell-disturbed", "sending output a few seconds after the listener closed: "+err.Error())
+		}
+		if !waitNotice(`SECOND-OUT-MARKER`) {
+			return fail("shell-disturbed", "a few seconds after the listener closed shell output no longer reaches the operator")
+		}
+	} /* !c.Brief: a shell that ends as soon as it is ready skips all that. */
 	/* The shell ends. */
 	switch c.Ending {
 	case "close-in":
@@ -305,6 +309,18 @@ func c12Run(c c12Case, base string) (string, string) {
 	co.Close()
 	/* An operator-scale pause (see C20), then one trigger must do. */
 	time.Sleep(3 * time.Second)
+	if c.Brief {
+		refused := false
+		for deadline := time.Now().Add(20 * time.Second); time.Now().Before(deadline); time.Sleep(50 * time.Millisecond) {
+			if p.Done() || !canConnect() {
+				refused = true
+				break
+			}
+		}
+		if !refused {
+			return fail("listener-still-open", "the one shell was fully attached and has ended (at once); 23 s later the listen address still accepts connections")
+		}
+	}
 	if p.Done() {
 		/* Exiting without waiting for a line is fine too. */
 	} else if "line" == c.Trigger {
@@ -378,6 +394,12 @@ func c12(r *ev.Result, tier string) {
 	}
 	for _, arr := range []string{"in-out", "io"} {
 		cases = append(cases, c12Case{Arrival: arr, Ending: "eof", Trigger: "line", QuietMs: long})
+	}
+	/* A shell that ends the moment it is ready. */
+	for _, arr := range []string{"in-out", "out-in", "io"} {
+		for _, end := range []string{"eof", "close-both"} {
+			cases = append(cases, c12Case{Arrival: arr, Ending: end, Trigger: "line", Brief: true})
+		}
 	}
 	r.Rule = "the real binary with -one-shell on a pty, real TLS clients: pre-attempt sequences (length <=1 quick, <=2 thorough) over {half-attached input that leaves, half-attached output that leaves, refused output next to a held input, refused /io client next to a held input} " +
 		"x arrival {/i then /o, /o then /i, /io} x ending {client closes input, output, both, output ends with EOF} x traffic in flight {none, 3 lines + 3 chunks} x exit trigger {line, Ctrl+D} (quick: the last two alternate over the product); " +
